@@ -95,6 +95,9 @@ type event struct {
 
 var errOther = errors.New("accepter exploded")
 
+// errTimeout is a net.Error whose Timeout method reports true.
+var errTimeout error = &net.OpError{Op: "accept", Net: "mem", Err: os.ErrDeadlineExceeded}
+
 type svc struct {
 	id   int
 	w    *lworld
@@ -351,7 +354,7 @@ func run(t *testing.T, sc Scenario) engine.Verdict {
 				switch {
 				case err == nil:
 					e.flag = "nil"
-				case err == errOther:
+				case err == errOther, errors.Is(err, os.ErrDeadlineExceeded):
 					e.flag = "other"
 				case err == context.Canceled:
 					e.flag = "ctxerr"
@@ -519,10 +522,17 @@ func run(t *testing.T, sc Scenario) engine.Verdict {
 						err = fmt.Errorf("listener: %w", net.ErrClosed)
 					case "chanclosed":
 						err = fmt.Errorf("listener: %w", channel.ErrClosed)
+					case "timeout":
+						// a failure like any other, even if it calls itself a timeout
+						err = errTimeout
 					default:
 						err = errOther
 					}
-					w.log(event{kind: "acceptfail", flag: st.Err})
+					flag := st.Err
+					if flag == "timeout" {
+						flag = "other"
+					}
+					w.log(event{kind: "acceptfail", flag: flag})
 					if sc.Net && st.Err == "netclosed" {
 						go lst.Close() // somebody else closes the listener
 						break
@@ -925,7 +935,7 @@ func genScenarioMode(t *rapid.T, netMode bool) Scenario {
 			st = Step{Op: "cancel", D: rapid.SampledFrom([]int{0, 0, 0, 1, 40, 700, 3000, 6000, 12000}).Draw(t, "canceldelay")}
 		case roll < 97 && !ended:
 			ended = true
-			st = Step{Op: "acceptfail", Err: rapid.SampledFrom([]string{"netclosed", "chanclosed", "other", "other"}).Draw(t, "errkind")}
+			st = Step{Op: "acceptfail", Err: rapid.SampledFrom([]string{"netclosed", "chanclosed", "other", "other", "timeout"}).Draw(t, "errkind")}
 		case !pendingConnect:
 			nconn++
 			st = Step{Op: "connect", K: nconn}
